@@ -44,7 +44,7 @@ func TestOneWrapperSeveralListeners(t *testing.T) {
 		var bases []net.Listener
 		var lns []net.Listener
 		for i := 0; i < nl; i++ {
-			base, err := net.Listen("tcp", "127.0.0.1:0")
+			base, err := hx.Listen("tcp", "127.0.0.1:0")
 			if err != nil {
 				rt.Fatalf("listen: %v", err)
 			}
@@ -84,7 +84,7 @@ func TestOneWrapperSeveralListeners(t *testing.T) {
 			k := kinds[ki]
 			cp := connPlan{Kind: ki, Size: max(k.depth, k.take+5, 1) + rapid.IntRange(0, 500).Draw(rt, "extra"), Tag: rapid.Uint64().Draw(rt, "tag")}
 			s := cp.stream()
-			c, err := net.Dial("tcp", bases[li].Addr().String())
+			c, err := hx.Dial("tcp", bases[li].Addr().String())
 			if err != nil {
 				rt.Fatalf("dial: %v", err)
 			}
